@@ -10,10 +10,14 @@
    * C18_serializer_stream: the same for every sequence of serialize / set_max_chunk_size calls on one serializer (T1);
    * C18_send_is_serialize, C18_server_media_droppable: a sent message is one serialize call with its type id and body; the
      droppable mark is the flag the application passed.
-   PARTIAL: the client session's version of the history theorem is not written (its calls are covered by the correspondence
-   check and the oracles C18.decodable* on the real packets); histories containing a failed call are known finding K2. *)
+   * C18_client_history_decodable: the same for every history of a client session from ClientSession::new (requests, stops, pings,
+     metadata and media, inputs; the chunk size announced after connect is an in-band serializer operation).
+   Histories containing a failed call are known finding K2 (the theorems quantify over histories of successful calls).
+   "Well-formed messages on the expected message streams" beyond decodability - body layout per message type (C13), stream ids and
+   timestamps of specific replies - is decided by the oracles C18.messages_carry_expected_timestamp_and_stream on the real packets. *)
 From RML Require Import Model.Base Model.Chunk Model.ChunkSer Model.Messages Model.SessionCommon Model.Server Spec.ChunkSpec
-  Proofs.ChunkSerProofs Proofs.ServerProofs Proofs.SessionProofs Proofs.InteropProofs Proofs.SessionTrace.
+  Proofs.ChunkSerProofs Proofs.ServerProofs Proofs.SessionProofs Proofs.InteropProofs Proofs.SessionFrame Proofs.SessionTrace Proofs.ClientTrace.
+From RML Require Import Model.Client.
 Local Open Scope N_scope.
 
 Theorem C18_server_history_decodable : forall cfg clock0 ops s0 rs0 s' rs keep,
@@ -23,6 +27,13 @@ Theorem C18_server_history_decodable : forall cfg clock0 ops s0 rs0 s' rs keep,
   exists sent, length sent = length (pkts (rs0 ++ rs)) /\
     sdec (concat (select keep (map fst (pkts (rs0 ++ rs))))) = SOk (select keep sent).
 Proof. exact server_history_decodable. Qed.
+
+Theorem C18_client_history_decodable : forall cfg ops c' rs keep,
+  Forall cop_ok ops -> client_trace (client_new cfg) ops = Some (c', rs) ->
+  keep_flags_ok keep (map snd (cpkts rs)) ->
+  exists sent, length sent = length (cpkts rs) /\
+    sdec (concat (select keep (map fst (cpkts rs)))) = SOk (select keep sent).
+Proof. exact client_history_decodable. Qed.
 
 (* one call: what it returns is what its serializer operations produced *)
 Theorem C18_server_call_traced : forall s op, sop_ok op -> sinv s -> ser_ok (sv_ser s) ->
@@ -49,6 +60,7 @@ Theorem C18_server_media_droppable : forall s sid data ts drop s' rs (video : bo
 Proof. exact server_media_droppable. Qed.
 
 Print Assumptions C18_server_history_decodable.
+Print Assumptions C18_client_history_decodable.
 Print Assumptions C18_server_call_traced.
 Print Assumptions C18_serializer_stream_partial.
 Print Assumptions C18_send_is_serialize.
